@@ -19,13 +19,13 @@ from vf import fits as FT
 ID = "C03"
 LEVEL = "exploration"
 CASE_TIMEOUT = 3600
-RULE = ("datasets per family (daily current+legacy+developer, billing, hourly with explicit seed solar/non-solar/developer, CalTRACK hourly) x contexts "
+RULE = ("datasets per family (daily current+legacy+developer, billing, hourly with explicit seed (incl. seed 0 on meters with irregular load shapes and with a supplemental column) solar/non-solar/developer, CalTRACK hourly) x contexts "
         "{in-process twice, fresh process, warmed process, perturbed global RNG, PYTHONHASHSEED random, OMP_NUM_THREADS unset/1/4, cold numba cache, "
         "batch order permuted, 4 and 16 concurrent identical fits}; oracle: all digests of a dataset are equal.  distinct_nontrivial = distinct "
         "(dataset, context) executions beyond the first of each dataset.")
 ASSUMPTIONS = ["same machine, same library builds: cross-platform bit-equality is not claimed",
                "hourly models are fitted with an explicit seed (seed=None draws from the global RNG and is outside the statement)"]
-REQUIRED_REACH = {"dataset.compared": 6, "context.executions": 30, "context.fresh_process": 6, "context.warmed": 4, "context.hashseed_random": 4,
+REQUIRED_REACH = {"dataset.hourly_seed_0": 2, "dataset.compared": 6, "context.executions": 30, "context.fresh_process": 6, "context.warmed": 4, "context.hashseed_random": 4,
                   "context.concurrent": 2, "context.batch_permuted": 2, "context.omp4": 2, "context.near_duplicates": 4}
 REQUIRED_REACH_THOROUGH = {"context.cold_numba_cache": 1}
 
@@ -122,6 +122,8 @@ def run_case(spec):
     if tmp:
         shutil.rmtree(tmp, ignore_errors=True)
     I.reach("dataset.compared")
+    if FT.Family(spec["family"]).kind == "hourly" and spec["mseed"] == 0:
+        I.reach("dataset.hourly_seed_0")
     ref_name = "in-process-1"
     ref = results[ref_name]
     for name, r in results.items():
@@ -141,14 +143,15 @@ def run_case(spec):
 
 def gen_cases(tier, seed):
     q = tier == "quick"
-    fams = ["daily:current", "daily:legacy", "billing", "hourly:default", "hourly:default:ghi", "caltrack"]
+    # the last two: seed-sensitive meters (irregular load shapes / a supplemental column) fitted with the legal explicit seed 0
+    fams = ["daily:current", "daily:legacy", "billing", "hourly:default", "hourly:default:ghi", "caltrack", "hourly:default:irregular", "hourly:supp"]
     if not q:
         fams = fams + ["daily:dev-alpha-all", "daily:custom-maps", "hourly:robust", "hourly:adaptive", "hourly:clusters6", "daily:current", "daily:current", "hourly:default",
                        "billing", "daily:legacy", "hourly:bins8:ghi", "daily:dev-nofinal", "caltrack", "daily:dev-c_hdd", "hourly:noedge", "daily:legacy-dev-splits", "billing", "daily:current"]
     zones = ["America/Chicago", "UTC", "Australia/Sydney", "Europe/London"]
     cases = []
     for i, f in enumerate(fams):
-        c = dict(kind="dataset", family=f, tz=zones[i % len(zones)], n=i, dseed=seed, mseed=11 + i, timeout=3600)
+        c = dict(kind="dataset", family=f, tz=zones[i % len(zones)], n=i, dseed=seed, mseed=0 if (i in (6, 7) or i % 5 == 4) else 11 + i, timeout=3600)
         if i == 0:
             c["concurrent"] = 4 if q else 16
         if i == 3:
